@@ -67,7 +67,10 @@ def prepare():
 # case strategies
 # --------------------------------------------------------------------------------------
 SPECIES = "ABCDEFGH"
+# species names that are prefixes of each other or differ by more than case
+TRICKY_SPECIES = ["A", "AB", "ABC", "B", "Ba", "C", "c1", "D"]
 FAMILIES = ["a", "b", "c", "d", "e", "f"]
+TRICKY_FAMILIES = ["g10", "g2", "B", "a", "c_1", "G3"]
 
 
 @st.composite
@@ -121,19 +124,21 @@ def _input(draw, labelled, max_obj, max_sp, max_fam, polytomy=False, coherent=Tr
     if chain:
         # swarm mode "deep chain": a 5-leaf caterpillar over 2-3 species - the shape on which
         # inheritance chains of the unordered model and path-dependent decoding live
+        pool = SPECIES if draw(st.integers(0, 3)) else TRICKY_SPECIES
         nsp = draw(st.integers(2, 3))
-        species = draw(_shape(list(SPECIES[:nsp]), 2))
+        species = draw(_shape(list(pool[:nsp]), 2))
         nobj = max(5, min(max_obj, draw(st.integers(5, 7))))
-        leaves = [f"{SPECIES[draw(st.integers(0, nsp - 1))]}_{i}" for i in range(nobj)]
+        leaves = [f"{pool[draw(st.integers(0, nsp - 1))]}_{i}" for i in range(nobj)]
         order = draw(st.permutations(leaves))
         obj = order[0]
         for leaf in order[1:]:
             obj = [obj, leaf] if draw(st.booleans()) else [leaf, obj]
     else:
+        pool = SPECIES if draw(st.integers(0, 3)) else TRICKY_SPECIES
         nsp = draw(_size(1, max_sp))
-        species = draw(_shape(list(SPECIES[:nsp]), 3 if polytomy else 2))
+        species = draw(_shape(list(pool[:nsp]), 3 if polytomy else 2))
         nobj = draw(_size(min_obj, max_obj))
-        leaves = [f"{SPECIES[draw(st.integers(0, nsp - 1))]}_{i}" for i in range(nobj)]
+        leaves = [f"{pool[draw(st.integers(0, nsp - 1))]}_{i}" for i in range(nobj)]
         obj = draw(_shape(leaves, 3 if polytomy else 2))
     spec = {
         "species": species,
@@ -150,7 +155,9 @@ def _input(draw, labelled, max_obj, max_sp, max_fam, polytomy=False, coherent=Tr
             ["ff0000", "00aa00", "000000"])) for _ in range(draw(st.integers(1, 2)))}
     if labelled:
         nfam = 1 if single_family else draw(st.integers(3 if chain else 1, max_fam))
-        fams = FAMILIES[:nfam]
+        # plain letters, or names whose text order, natural order and case-insensitive order
+        # all differ (g10 < g2 as text, B < a as text)
+        fams = (FAMILIES if draw(st.integers(0, 2)) else TRICKY_FAMILIES)[:nfam]
         hidden = draw(st.permutations(fams))
         consistent = draw(st.integers(0, 5)) != 0
         syn = {}
